@@ -9,6 +9,7 @@ import (
 	"encoding/json"
 	"fmt"
 	"io/ioutil"
+	"os"
 	"path/filepath"
 	"strings"
 
@@ -72,6 +73,10 @@ func entryConsistent(c *sim.Ctx, e wallet.Entry, what string) bool {
 // wallet from the same seed that generated the same total in one batch.
 func runDerive(c *sim.Ctx) {
 	t := c.T
+	if t.Chance("collection-wallet", 1, 8) {
+		runCollection(c)
+		return
+	}
 	typ := []string{wallet.WalletTypeDeterministic, wallet.WalletTypeBip44, wallet.WalletTypeXPub}[t.Pick("wtype", 4, 4, 2)]
 	// Seeds come from a small fixed pool shared by all runs of a worker: what varies between
 	// runs is the operation history, and the one-batch reference wallets can be reused.
@@ -369,6 +374,42 @@ func runEncrypt(c *sim.Ctx) {
 		sim.Harnessf("create %s wallet: %v", typ, err)
 	}
 	w.SetCryptoType(ct)
+	if typ == wallet.WalletTypeBip44 && t.Bool("second-account") {
+		// a second account with entries of its own: every account has an extended private key that must come back
+		if bw, ok := w.(interface {
+			NewAccount(string) (uint32, error)
+		}); ok {
+			idx, err := bw.NewAccount("second")
+			if err != nil {
+				sim.Harnessf("NewAccount: %v", err)
+			}
+			if _, err := w.GenerateAddresses(wallet.OptionAccount(idx), wallet.OptionGenerateN(uint64(1+t.Int("second-entries", 3)))); err != nil {
+				sim.Harnessf("GenerateAddresses on the second account: %v", err)
+			}
+			c.Count("probe.bip44_wallet_with_two_accounts")
+		}
+	}
+	legacy := false
+	if typ == wallet.WalletTypeDeterministic && t.Chance("legacy-file", 1, 80) {
+		// a wallet file written by an old release: no cryptoType field.  Locking such a wallet uses the default
+		// cipher (slow: the production scrypt parameters), which must then be on record for the unlock.
+		raw, _ := w.Serialize()
+		var m map[string]interface{}
+		if json.Unmarshal(raw, &m) == nil {
+			if meta, ok := m["meta"].(map[string]interface{}); ok {
+				delete(meta, "cryptoType")
+				if b, err := json.Marshal(m); err == nil {
+					p := c.Dir + "/legacy.wlt"
+					if os.WriteFile(p, b, 0o600) == nil {
+						if lw, err := wallet.Load(p); err == nil {
+							w, legacy = lw, true
+							c.Count("probe.legacy_wallet_without_crypto_type")
+						}
+					}
+				}
+			}
+		}
+	}
 	secrets := secretsOf(w)
 	plain, _ := w.Serialize()
 	pw := []byte(fmt.Sprintf("password-%d", t.Int("pw", 3)))
@@ -419,6 +460,11 @@ func runEncrypt(c *sim.Ctx) {
 		return
 	}
 	ub, _ := uw.Serialize()
+	if legacy {
+		// (the unlocked form now names the cipher that was used: compare everything else)
+		c.Count("probe.legacy_wallet_roundtrip")
+		return
+	}
 	if !bytes.Equal(ub, plain) {
 		c.Violate("unlock-restores-different-wallet", typ+":"+string(ct), "unlocking did not restore the original wallet")
 		return
@@ -733,4 +779,98 @@ func wouldExhaustMemory(raw []byte) bool {
 		return false
 	}
 	return float64(m.N)*float64(m.R)*128 > 64<<20 || float64(m.P)*float64(m.R)*128 > 64<<20
+}
+
+// runCollection: a collection wallet (a bag of imported secret keys) through a history of imports whose lists
+// repeat keys the wallet already holds, before, between and after new ones.  Whatever the wallet does with a
+// repeated key, every entry must pair a secret key with its own public key and address, every imported key must
+// be found under its address, and a serialise / load round trip must give the same entries.
+func runCollection(c *sim.Ctx) {
+	t := c.T
+	key := func(i int) cipher.SecKey {
+		_, sk := cipher.MustGenerateDeterministicKeyPair([]byte(fmt.Sprintf("collection key %d", i)))
+		return sk
+	}
+	var first []cipher.SecKey
+	next := 0
+	for i := 0; i < 1+t.Int("coll-initial", 3); i++ {
+		first = append(first, key(next))
+		next++
+	}
+	w, err := mkWallet(wallet.WalletTypeCollection, "", "", "", first, 0)
+	if err != nil {
+		sim.Harnessf("create collection wallet: %v", err)
+	}
+	w.SetCryptoType(crypto.CryptoTypeSha256Xor)
+	imported := append([]cipher.SecKey{}, first...)
+	steps := t.Range("coll-steps", 2, 8)
+	c.Sample = append(c.Sample, fmt.Sprintf("collection wallet, %d imports", steps))
+	check := func(what string) bool {
+		es := entriesOf(w, false)
+		byAddr := map[string]wallet.Entry{}
+		for i, e := range es {
+			if !entryConsistent(c, e, fmt.Sprintf("%s: entry %d", what, i)) {
+				return false
+			}
+			byAddr[e.Address.String()] = e
+		}
+		for _, k := range imported {
+			a := cipher.MustAddressFromSecKey(k)
+			e, ok := byAddr[a.String()]
+			if !ok {
+				c.Violate("imported-key-missing", "collection", "%s: the wallet has no entry for imported key with address %s", what, a)
+				return false
+			}
+			if e.Secret != k {
+				c.Violate("entry-pubkey", "secret-of-another-key", "%s: the entry for address %s holds another key's secret", what, a)
+				return false
+			}
+		}
+		c.Count("probe.collection_entries_checked")
+		return true
+	}
+	if !check("after creation") {
+		return
+	}
+	for c.Step = 1; c.Step <= steps && !c.Failed(); c.Step++ {
+		var list []cipher.SecKey
+		for i := 0; i < 1+t.Int("coll-import-n", 4); i++ {
+			if t.Chance("coll-repeat", 1, 3) {
+				list = append(list, imported[t.Int("coll-repeat-i", len(imported))])
+				c.Count("fault.import_repeats_held_key")
+			} else {
+				list = append(list, key(next))
+				next++
+			}
+		}
+		_, err := w.GenerateAddresses(wallet.OptionCollectionPrivateKeys(list))
+		c.Kind(1, err == nil)
+		c.Logf("import %d keys -> %v", len(list), err)
+		if err == nil {
+			imported = append(imported, list...)
+		}
+		if !check(fmt.Sprintf("after import %d", c.Step)) {
+			return
+		}
+		if t.Chance("coll-reload", 1, 3) {
+			raw, err := w.Serialize()
+			if err != nil {
+				sim.Harnessf("Serialize: %v", err)
+			}
+			p := fmt.Sprintf("%s/coll%d.wlt", c.Dir, c.Step)
+			if err := os.WriteFile(p, raw, 0o600); err != nil {
+				sim.Harnessf("write: %v", err)
+			}
+			lw, err := wallet.Load(p)
+			if err != nil {
+				c.Violate("reload-failed", "collection", "the collection wallet cannot be loaded from its own serialised form after import %d: %v", c.Step, err)
+				return
+			}
+			w = lw
+			c.Count("fault.reload")
+			if !check(fmt.Sprintf("after import %d and a reload", c.Step)) {
+				return
+			}
+		}
+	}
 }
